@@ -175,6 +175,8 @@ def suite_seq(pid, tier, seed):
     cases = [gen.seq_case(f"s{i}", rng, length=rng.choice([6, 10, 14]), big=0.06) for i in range(n)]
     brng = random.Random(seed * 7919 + 5)
     cases += [gen.bulk_case(f"bulk{i}", brng) for i in range(8 if tier == "quick" else 64)]
+    if tier != "quick":
+        cases += gen.exhaustive_histories(4, n=2) + gen.exhaustive_histories(3, n=1)
     real, model = both_sides(f"seq-{tier}-{seed}-{n}", cases, "plain")
     R, M = run.by_case(real), run.by_case(model)
     parts = spec.get("corr", {"ret"})
@@ -205,6 +207,9 @@ def suite_crash(pid, tier, seed):
     rng = random.Random(seed * 1000003 + 29)
     cases = [gen.crash_case(f"c{i}", rng, length=rng.choice([3, 4, 5, 6])) for i in range(n)]
     cases += gen.crash_corpus()
+    if tier != "quick":
+        # every history of length <= 2 over the small alphabet, killed at every call
+        cases += [c.replace("case x", "case cx", 1) for c in gen.exhaustive_histories(2, n=1, tail=False) + gen.exhaustive_histories(2, n=2, sync=0, tail=False)]
     real, model = both_sides(f"crash-{tier}-{seed}-{n}", cases, "crash-all")
     R, M = headers_split(real), headers_split(model)
     Rn = {h.split()[1]: (h, v) for h, v in R.items()}
